@@ -344,6 +344,9 @@ func (s *sim) peerLive(msgType string, lost bool) {
 		body = []fixwire.Field{fixwire.F(11, "P"+strconv.Itoa(s.p.NextOut)), fixwire.F(55, "IBM"), fixwire.F(54, "1")}
 	case "1":
 		body = []fixwire.Field{fixwire.F(112, "PT"+strconv.Itoa(s.p.NextOut))}
+	case "2":
+		// the counterparty asks for a replay of what the engine has sent (from number 1 to the end)
+		body = []fixwire.Field{fixwire.F(7, "1"), fixwire.F(16, strconv.Itoa(peer.Infinity(s.cfg.begin)))}
 	}
 	seq, f := s.p.Next(msgType, body)
 	if lost {
